@@ -129,6 +129,8 @@ def pyStr (o : Obj) : Key :=
   -- (`_named_objs` labels an object by `obj.name`, `obj.__name__`, else `str(obj)`)
   else if 900 ≤ o ∧ o < 910 then "{" ++ Int.repr (o * 1000) ++ "}"
   else if 910 ≤ o ∧ o < 920 then "n" ++ Int.repr o
+  -- objects 920..929 are functions named "f<o>" (no `name`, but `__name__`)
+  else if 920 ≤ o ∧ o < 930 then "f" ++ Int.repr o
   else Int.repr (o.natAbs * 1000)
 
 def payloadOld (s : St) : Payload :=       -- `dict(names) or list(_objects)`
